@@ -39,7 +39,41 @@ let step _ cs os =
       ["BAD\tside=impl\tclause=broadcast targets: expected results=" ^ exp_results ^ " hit=" ^ exp_hit]
     else []
   | None ->
-    let contains s sub = (let n = String.length s and m = String.length sub in let rec f i = i + m <= n && (String.sub s i m = sub || f (i + 1)) in f 0) in
+  match get_opt f "duo" with
+  | Some _ ->
+    (* duo=1 (driver-level clauses; the model has one caller per node): two concurrent callers share the
+       node's cached connection. Caller A's request is read and never answered (each of its attempts meets
+       "silent until timeout"); caller B's single request, sent later on the same connection, is answered
+       by the node while B's own deadline is still far away (ready=1 is the harness's record that the node
+       wrote that reply in time on the connection the request came on; otherwise the case is not judged).
+       B's outcome sequence is therefore [success]. *)
+    if get o "ready" <> "1" then [] else begin
+      let max = int_of_string (get f "max") in
+      let num k = int_of_n (n_of_hex (get o k)) in
+      let out = ref [] in
+      let bad c = out := ("BAD\tside=impl\tclause=" ^ c) :: !out in
+      (* "stops at the first reply, success or application error, and reports that reply" *)
+      if get o "res" <> "value" then
+        bad ("two callers on one node: the node answered caller B in time but B reports " ^ get o "res" ^ " (\"stops at the first reply ... and reports that reply\")");
+      (* "retries only after transport-level failures": B's only attempt met a reply, so there is exactly
+         one attempt and the node sees B's request exactly once *)
+      if num "att" <> 1 || num "slow" <> 1 then
+        bad (Printf.sprintf "two callers on one node: caller B's request was answered in time, yet B made %d attempts and the node saw the request %d times (\"retries only after transport-level failures\")" (num "att") (num "slow"));
+      (* "makes at most the configured number of attempts"; A never gets a reply, so what it reports is
+         an error ("reports that reply or the last transport error") *)
+      (match split_on ':' (get o "a") with
+       | [a; r] ->
+         if int_of_n (n_of_hex a) > max || num "hang" > max then bad "two callers on one node: caller A exceeded the configured number of attempts";
+         if r = "value" || r = "value+error" then bad "two callers on one node: caller A reports a value although the node never answered it"
+       | _ -> failwith "bad a");
+      (* "a transport failure never leaves the node wedged, so a later attempt or call reconnects and
+         succeeds once the node is reachable again" (within two calls, as in ok_C19) *)
+      if not (Stdlib.List.mem "value" (split_on ',' (get o "follow"))) then
+        bad "two callers on one node: neither of the two calls afterwards succeeds (node wedged)";
+      !out
+    end
+  | None ->
+    let contains s sub =(let n = String.length s and m = String.length sub in let rec f i = i + m <= n && (String.sub s i m = sub || f (i + 1)) in f 0) in
     if contains (get o "res") "value+error" || contains (get o "follow") "value+error" then
       ["BAD\tside=impl\tclause=a result carries a reply and a stale transport error at once (reports that reply OR the last transport error)"] else
     let max = nat_of_int (int_of_string (get f "max")) in
